@@ -67,7 +67,9 @@ def build_pool(d: int, v) -> dict:
         pool[f"c{k}"] = Point(s * a + t * b)  # four collinear points (last coordinates 1, 1, 2, 1)
     pool["mid"] = Point((a + b) / 2)
     if d == 2:
-        cr = lambda p, q: np.cross(np.array(p, float), np.array(q, float))  # noqa: E731
+        from .props.c01 import pow2_normalise as _pn
+
+        cr = lambda p, q: _pn(np.cross(np.array(p, float), np.array(q, float))) * 2  # noqa: E731  (moderate magnitude)
         pool["l0"] = Line(cr(pts[0], pts[1]))
         pool["l1"] = Line(cr(pts[2], pts[3]))
         pool["l2"] = Line(cr(pts[0], pts[2]))
@@ -101,7 +103,9 @@ def build_pool(d: int, v) -> dict:
         pool["l1"] = Line(Z.plucker_dual(pts[2], pts[3]))  # skew to l0 (the four points are independent)
         pool["l2"] = Line(Z.plucker_dual(pts[0], pts[2]))  # meets l0 in p0
         pool["l3"] = Line(Z.plucker_dual(pts[1], pts[2]))
-        hp = lambda i, j, k: np.array([float(x) for x in X.cofactor_hyperplane([[Fraction(y) for y in pts[i]], [Fraction(y) for y in pts[j]], [Fraction(y) for y in pts[k]]])])  # noqa: E731
+        from .props.c01 import pow2_normalise as _pn
+
+        hp = lambda i, j, k: _pn(np.array([float(x) for x in X.cofactor_hyperplane([[Fraction(y) for y in pts[i]], [Fraction(y) for y in pts[j]], [Fraction(y) for y in pts[k]]])])) * 2  # noqa: E731
         pool["e0"] = Plane(hp(0, 1, 2))
         pool["e1"] = Plane(hp(0, 1, 3))
         pool["e2"] = Plane(hp(1, 2, 3))
@@ -377,15 +381,17 @@ def same(a, b, cmp="auto", tol=1e-6):
         return False, f"shapes {A.shape} != {B.shape}"
     if A.dtype == bool or B.dtype == bool:
         return bool(np.array_equal(A, B)), (A.tolist(), B.tolist())
+    nn = lambda x, y: bool(np.isnan(x) and np.isnan(y))  # noqa: E731  (undefined on both sides is agreement)
     if cmp == "p1":
-        return all(C.p1_eq(complex(x), complex(y), tol) for x, y in zip(A.ravel(), B.ravel())), (A.tolist(), B.tolist())
+        return all(nn(x, y) or C.p1_eq(complex(x), complex(y), tol) for x, y in zip(A.ravel(), B.ravel())), (A.tolist(), B.tolist())
     if cmp == "angle":
-        return all(C.angle_eq_mod_pi(x, y, tol) for x, y in zip(A.ravel(), B.ravel())), (A.tolist(), B.tolist())
+        return all(nn(x, y) or C.angle_eq_mod_pi(x, y, tol) for x, y in zip(A.ravel(), B.ravel())), (A.tolist(), B.tolist())
     if cmp == "angle3":
         return bool(np.all(np.abs(np.cos(np.real(A)) ** 2 - np.cos(np.real(B)) ** 2) <= tol)), (A.tolist(), B.tolist())
     with np.errstate(all="ignore"):
         both_inf = np.isinf(A) & np.isinf(B)
-        ok = both_inf | (np.abs(A - B) <= tol * np.maximum(1.0, np.abs(B)))
+        both_nan = np.isnan(A) & np.isnan(B)  # differential / metamorphic comparison: undefined on both sides is agreement
+        ok = both_inf | both_nan | (np.abs(A - B) <= tol * np.maximum(1.0, np.abs(B)))
     return bool(np.all(ok)), (A.tolist(), B.tolist())
 
 
